@@ -217,7 +217,7 @@ def splice(lowered_text, specs, cnames, subst):
 
 # ---------------------------------------------------------------------------------------------------------- units
 CBMC_FLAGS = ['--sat-solver', 'cadical', '--bounds-check', '--pointer-check', '--conversion-check', '--signed-overflow-check',
-              '--div-by-zero-check', '--unwind', '1', '--unwinding-assertions', '--json-ui', '--object-bits', '10']
+              '--div-by-zero-check', '--unwind', '1', '--unwindset', '__CPROVER_contracts_write_set_check_assigns_clause_inclusion.0:80', '--unwinding-assertions', '--json-ui', '--object-bits', '10']
 
 def proto_params(proto):
     m = re.match(r'^(.*?)\b(\w+)\((.*)\)$', proto)
